@@ -83,7 +83,8 @@ def run(pid, seed=0):
                 continue
             hit = r.get('caught_by', {}).get(pid)
             if hit and not hit[0].startswith('ANALYSIS-BROKEN'):
-                items.append(('seed', r['seed'], None, None, None, hit[0], os.path.join(VERIF, 'seeded', r['seed'], 'patch.diff')))
+                items.append(('seed', r['seed'], None, None, None, hit[0], os.path.join(
+                    VERIF, 'seeded', r['seed'], 'patch.ported.diff' if r.get('ported') else 'patch.diff')))
 
     def one(item):
         kind, iid, rel, old, new, expect, patch = item
